@@ -170,7 +170,7 @@ def run(ctx):
                 rep.check(r2, any(peel(p[2][0]) == ('param', 1) for p in pls), 'tcp::repl:closure-captures-payload',
                           'closure captures %s' % short(v)[:200], '%s:%d' % (tcp.file, s['line']))
     g = F.fn('proto::tcb::get_tcb')
-    fc = [(bi, t) for bi, t in g.calls() if t['name'] == 'call_mut' or t['callee'].endswith('FnMut::call_mut')]
+    fc = [(bi, t) for bi, t in g.calls() if t['name'] in ('call_mut', 'call_once', 'call') and re.search(r'ops::(FnMut::call_mut|FnOnce::call_once|Fn::call)$', t['callee'])]
     ok = len(fc) == 1
     if ok:
         reach = g.reachable(0, removed_blocks=[fc[0][0]])
